@@ -1,8 +1,8 @@
 (* Run from /verif/ocaml/gen:  coqc -R ../../coq TM ../../coq/Extract/Extract.v
    (Separate Extraction: one OCaml module per Coq file, written to the current directory) *)
 From Coq Require Import Extraction ExtrOcamlBasic ZArith NArith List.
-From TM Require Import Util.IntSet Util.Graph Util.Closure Util.ClosureSpec Util.GraphSpec Lex.Tables Lex.ShiftDfa Util.Ident Util.Diff Gram.Lookahead Gram.PTables Gram.Optimize Gram.OptimizeSpec Gram.Run Gram.Minimize.
+From TM Require Import Util.IntSet Util.Graph Util.Closure Util.ClosureSpec Util.GraphSpec Lex.Tables Lex.ShiftDfa Util.Ident Util.Diff Gram.Lookahead Gram.PTables Gram.Optimize Gram.OptimizeSpec Gram.Run Gram.Minimize Gram.Cfg Gram.LalrRef Gram.Prec Gram.LalrTables.
 Extraction Language OCaml.
 Separate Extraction
   Z.add Z.mul Z.sub Z.div_eucl Z.compare Z.of_nat Z.to_nat Z.of_N Z.to_N N.of_nat N.to_nat
-  IntSet Graph Closure ClosureSpec GraphSpec Tables ShiftDfa Ident Diff Lookahead PTables Optimize OptimizeSpec Run Minimize.
+  IntSet Graph Closure ClosureSpec GraphSpec Tables ShiftDfa Ident Diff Lookahead PTables Optimize OptimizeSpec Run Minimize Cfg LalrRef Prec LalrTables.
